@@ -20,6 +20,7 @@
 #include "libvpsc/constraint.h"
 #include "libvpsc/exceptions.h"
 #include "libavoid/vpsc.h"
+#include <cfloat>
 #include <string>
 #include <vector>
 #include <csignal>
@@ -41,6 +42,14 @@ struct Result {
     std::vector<double> pos;
     std::string act, uns, exc;
 };
+
+// ref.<name> same|diff passes=<k> <lastmove> : library solve() vs the reference loop; lastmove = largest
+// position change in the reference loop's last pass (hex float; -1 if it made a single pass)
+static void printRef(const char *name, const Result &lib, const Result &ref, long passes, double lastMove) {
+    bool same = lib.exc == ref.exc && lib.pos == ref.pos && lib.act == ref.act;
+    printf("ref.%s %s passes=%ld %s\n", name, same ? "same" : "diff", passes, vh::hx(lastMove).c_str());
+    fflush(stdout);
+}
 
 static void printResult(const char *name, const Result &r) {
     printf("exc.%s %s\n", name, r.exc.c_str());
@@ -128,6 +137,38 @@ template <class V, class C, class S> struct Live {
         out = prev;
         return changed;
     }
+    // Reference re-execution of the *documented* loop of IncSolver::solve() through the public
+    // satisfy(): one pass, then further passes until the cost (sum w (finalPosition-desired)^2)
+    // changes by at most 1e-4. Diagnostic only: if the library's solve() returns exactly this
+    // state, its loop behaved as written and a non-optimal answer is the loop criterion's fault
+    // (exit after a pass that changed nothing); if not, solve() did something else.
+    double refCost() const {
+        double c = 0;
+        for (V *v : vs) { double df = v->finalPosition - v->desiredPosition; c += v->weight * df * df; }
+        return c;
+    }
+    template <class Unsat> Result refSolve(long &passes, double &lastMove) {
+        Result r; r.exc = "none"; passes = 0; lastMove = -1;   // -1: the loop body never ran
+        try {
+            solver->satisfy(); passes = 1;
+            double lastcost = DBL_MAX, cost = refCost();
+            std::vector<double> prev;
+            while (fabs(lastcost - cost) > 0.0001 && passes < 100000) {
+                prev.clear(); for (V *v : vs) prev.push_back(v->finalPosition);
+                solver->satisfy(); ++passes;
+                lastcost = cost; cost = refCost();
+                lastMove = 0;       // largest |change of a finalPosition| in this (so far last) pass
+                for (size_t i = 0; i < vs.size(); ++i) lastMove = std::max(lastMove, fabs(vs[i]->finalPosition - prev[i]));
+            }
+        }
+        catch (char *) { r.exc = "cstr"; }
+        catch (const char *) { r.exc = "cstr"; }
+        catch (Unsat &) { r.exc = "unsatisfied"; }
+        catch (...) { r.exc = "other"; }
+        for (V *v : vs) r.pos.push_back(v->finalPosition);
+        for (C *c : cs) { r.act.push_back(c->active ? '1' : '0'); r.uns.push_back(c->unsatisfiable ? '1' : '0'); }
+        return r;
+    }
     void setDesired(const std::vector<double> &d) { for (size_t i = 0; i < d.size(); ++i) vs[i]->desiredPosition = d[i]; }
     ~Live() {
         delete solver;
@@ -160,7 +201,13 @@ static Result runPermuted(const Problem &P, const std::vector<int> &vp, const st
         for (size_t j = 0; j < m; ++j) { back.act[cp[j]] = r.act[j]; back.uns[cp[j]] = r.uns[j]; }
         return back;
     };
-    if (fix) { Result x; *fixChanged = live.template solveToFixpoint<Unsat>(r, x); *fix = mapBack(x); }
+    if (fix) {
+        Result x; *fixChanged = live.template solveToFixpoint<Unsat>(r, x); *fix = mapBack(x);
+        L c; c.build(d, w, s, cons);
+        long passes; double lastMove;
+        Result f = c.template refSolve<Unsat>(passes, lastMove);
+        printRef("perm", r, f, passes, lastMove);
+    }
     return mapBack(r);
 }
 
@@ -185,10 +232,20 @@ static void emit(long k, const Problem &P, vh::Rng &r) {
     fflush(stdout);
     {
         LiveInc a; a.build(P.d, P.w, P.s, P.cons);
-        printResult("inc", a.solve<vpsc::UnsatisfiedConstraint>());
+        Result r0 = a.solve<vpsc::UnsatisfiedConstraint>();
+        printResult("inc", r0);
         a.setDesired(P.d2);
         Result r2 = a.solve<vpsc::UnsatisfiedConstraint>(), x;
         printResult("inc2", r2);
+        {
+            LiveInc c; c.build(P.d, P.w, P.s, P.cons);
+            long passes; double lastMove;
+            Result f0 = c.refSolve<vpsc::UnsatisfiedConstraint>(passes, lastMove);
+            printRef("inc", r0, f0, passes, lastMove);
+            c.setDesired(P.d2);
+            Result f2 = c.refSolve<vpsc::UnsatisfiedConstraint>(passes, lastMove);
+            printRef("inc2", r2, f2, passes, lastMove);
+        }
         if (a.solveToFixpoint<vpsc::UnsatisfiedConstraint>(r2, x)) printResult("inc2x", x);
         LiveInc b; b.build(P.d, P.w, P.s, P.cons);
         Result r1 = b.solve<vpsc::UnsatisfiedConstraint>();
@@ -201,10 +258,20 @@ static void emit(long k, const Problem &P, vh::Rng &r) {
     });
     {
         LiveAvoid a; a.build(P.d, P.w, P.s, P.cons);
-        printResult("avoid", a.solve<Avoid::UnsatisfiedConstraint>());
+        Result r0 = a.solve<Avoid::UnsatisfiedConstraint>();
+        printResult("avoid", r0);
         a.setDesired(P.d2);
         Result r2 = a.solve<Avoid::UnsatisfiedConstraint>(), x;
         printResult("avoid2", r2);
+        {
+            LiveAvoid c; c.build(P.d, P.w, P.s, P.cons);
+            long passes; double lastMove;
+            Result f0 = c.refSolve<Avoid::UnsatisfiedConstraint>(passes, lastMove);
+            printRef("avoid", r0, f0, passes, lastMove);
+            c.setDesired(P.d2);
+            Result f2 = c.refSolve<Avoid::UnsatisfiedConstraint>(passes, lastMove);
+            printRef("avoid2", r2, f2, passes, lastMove);
+        }
         if (a.solveToFixpoint<Avoid::UnsatisfiedConstraint>(r2, x)) printResult("avoid2x", x);
         LiveAvoid b; b.build(P.d, P.w, P.s, P.cons);
         Result r1 = b.solve<Avoid::UnsatisfiedConstraint>();
@@ -280,8 +347,8 @@ static double dyadic(vh::Rng &r, long lo, long hi, int maxShift) {
     return (double) r.range(lo * (1L << j), hi * (1L << j)) / (double) (1L << j);
 }
 
-enum Kind { DAG, CHAIN, TREE, EQ, CYC, SCALED, DEGEN, SMALLW, BIG, NKIND };
-static const char *kindTag[] = {"dag", "chain", "tree", "eq", "cyc", "scaled", "degen", "smallw", "big"};
+enum Kind { DAG, CHAIN, TREE, EQ, CYC, SCALED, DEGEN, SMALLW, FAN, BIG, NKIND };
+static const char *kindTag[] = {"dag", "chain", "tree", "eq", "cyc", "scaled", "degen", "smallw", "fan", "big"};
 
 static Problem randomProblem(vh::Rng &r, Kind kind, bool thorough) {
     Problem P; P.tag = kindTag[kind]; P.allowStatic = true;
@@ -391,10 +458,53 @@ static Problem readProblem() {
     return P;
 }
 
+// "fan" class: re-solve histories in which a block pressed together by the first solve must break
+// into many pieces (one satisfy() pass splits each block at most once, so this needs several passes):
+// a chain / tree / chain-with-chords of 6..12 (thorough ..24) variables, first desired positions
+// compressed (all equal, reversed, or a narrow band), then fanned out (fully or partly).
+static Problem fanProblem(vh::Rng &r, bool thorough) {
+    Problem P; P.tag = "fan"; P.allowStatic = true;
+    long n = r.range(6, thorough ? 24 : 12);
+    std::vector<int> label(n);
+    for (long i = 0; i < n; ++i) label[i] = (int) i;
+    if (r.coin()) r.shuffle(label);
+    int shape = (int) r.range(0, 3);              // 0,1 chain  2 tree  3 chain + chords
+    bool sameGap = r.coin();
+    double g0 = dyadic(r, 0, 4, 2), gmax = 0;
+    auto add = [&](long a, long b, double mult) {
+        Con c; c.l = label[a]; c.r = label[b]; c.eq = false;
+        c.gap = (sameGap ? g0 : dyadic(r, 0, 4, 2)) * mult;
+        gmax = std::max(gmax, c.gap);
+        P.cons.push_back(c);
+    };
+    for (long j = 1; j < n; ++j) add(shape == 2 ? r.range(0, j - 1) : j - 1, j, 1);
+    if (shape == 3) for (long e = r.range(1, n / 2); e > 0; --e) {
+        long a = r.range(0, n - 3), b = r.range(a + 2, n - 1);
+        add(a, b, 0);                                 // chord with gap 0: implied, never binding alone
+    }
+    int wmode = (int) r.range(0, 2);
+    int comp = (int) r.range(0, 3);               // 0,1 all equal  2 reversed  3 narrow band
+    double base = (double) r.range(-50, 50);
+    P.d.assign(n, 0); P.d2.assign(n, 0); P.w.assign(n, 1); P.s.assign(n, 1);
+    int fan = (int) r.range(0, 2);                // 0 full fan  1 partial (some neighbours stay pressed)  2 fan + shift
+    double step = gmax + 1 + dyadic(r, 0, 8, 2);
+    double pos = base + (fan == 2 ? (double) r.range(-100, 100) : 0);
+    for (long i = 0; i < n; ++i) {
+        int v = label[i];
+        if (wmode == 1) P.w[v] = r.pick(std::vector<double>{1, 2, 7});
+        else if (wmode == 2) P.w[v] = r.pick(std::vector<double>{1, 1, 1000});
+        P.d[v] = comp <= 1 ? base : comp == 2 ? base - (double) i * dyadic(r, 0, 3, 1) : base + dyadic(r, -1, 1, 2);
+        if (fan == 1 && r.coin(1, 3)) pos -= dyadic(r, 0, 6, 1);      // this one wants to stay pressed / overlap
+        else pos += step + dyadic(r, 0, 4, 2);
+        P.d2[v] = pos;
+    }
+    return P;
+}
+
 // ------------------------------------------------------------------ fixed witnesses (always run first)
 // Shrunk inputs on which the unchanged library returned a non-optimal placement when this check was
 // written (see the C02 report); they stay in the stream as regression markers.
-static const int NWITNESS = 4;
+static const int NWITNESS = 5;
 static Problem witness(int i) {
     Problem P; P.tag = "witness"; P.allowStatic = true;
     auto con = [&](int l, int r, double g) { Con c; c.l = l; c.r = r; c.gap = g; c.eq = false; P.cons.push_back(c); };
@@ -410,6 +520,12 @@ static Problem witness(int i) {
         P.d = {-5, 0, 15, 0}; P.w = {1, 1.0 / 1024, 1, 1.0 / 1024}; P.s = {1, 1, 1, 1};
         con(0, 1, 21.5); con(0, 3, 61.5); con(2, 1, 4); con(2, 3, 44);
         P.d2 = {0, 0, 0, 0};
+    } else if (i == 4) {   // NOT a defect witness: chain of 6 pressed together, then fanned out on the live
+        // solver (5 splits needed, one per block per pass); the unchanged library reaches cost 0
+        P.tag = "fan";
+        P.d = {0, 0, 0, 0, 0, 0}; P.w = {1, 1, 1, 1, 1, 1}; P.s = {1, 1, 1, 1, 1, 1};
+        for (int j = 0; j < 5; ++j) con(j, j + 1, 1);
+        P.d2 = {0, 4, 8, 12, 16, 20};
     } else {               // absolute LAGRANGIAN_TOLERANCE: lm = -2^-14 > -1e-4 is never split (weights 1/1024)
         P.d = {1, 0}; P.w = {1.0 / 1024, 1.0 / 1024}; P.s = {1, 1};
         con(0, 1, 0);
@@ -445,7 +561,8 @@ int main(int argc, char **argv) {
         vh::Rng r = vh::caseRng(a.seed, k);
         Kind kind = (Kind) (c % (thorough ? NKIND : NKIND - 1));
         if (kind == BIG && (c / NKIND) % 4 != 0) kind = DAG;      // big cases are expensive: 1 in 4 rounds
-        emit(k, randomProblem(r, kind, thorough), r);
+        if (kind == FAN) emit(k, fanProblem(r, thorough), r);
+        else emit(k, randomProblem(r, kind, thorough), r);
     }
     return 0;
 }
